@@ -207,7 +207,7 @@ fn main() {
                 if let Some(t) = a.strip_prefix("ctx=") {
                     settings.set_user_context_type(t);
                 } else if let Some(d) = a.strip_prefix("derives=") {
-                    settings.derives = d.split(',').filter(|x| !x.is_empty()).map(|x| x.to_string()).collect();
+                    settings.derives = if d.is_empty() { Vec::new() } else { d.split(',').map(|x| x.to_string()).collect() };
                 }
             }
             match Grammar::from_str(&text) {
